@@ -258,7 +258,7 @@ def _args(step):
     tv = step.get("tv")
     return {
         "x": txt(step.get("x", "")), "y": opt(step.get("y")), "xs": [txt(x) for x in step.get("xs", ())],
-        "ps": pairs(step.get("ps", ())), "n": step.get("n", 0),
+        "ps": pairs(list(step.get("ps", ())) + list(step.get("kw", ()))), "n": step.get("n", 0),   # positional part, then **kwargs
         "m1": opti(m[0]), "m2": opti(m[1]), "m3": opti(m[2]), "tag": step.get("tag", ""),
         "tv": dec_tv(tv)[1] if tv else U("none"),
         "w": enc_w(step["w"]) if step.get("w") else enc_w(["", None, []]),
@@ -315,7 +315,8 @@ def _alias_op(kind, v, step):
     elif op == "ior_self":
         operator.ior(v, v)
     elif op == "ior":
-        operator.ior(v, list(step["xs"]) if kind == "set" else dict(tuple(p) for p in step["ps"]))
+        tup = [tuple(p) for p in step.get("ps", ())]
+        operator.ior(v, list(step["xs"]) if kind == "set" else tup if step.get("form") == "pairs" else dict(tup))
     elif op == "item_self":
         v[x] = v[x]
     elif op == "setitem_self":
@@ -359,7 +360,9 @@ def _view_op(kind, v, step):
         elif op == "clear":
             v.clear()
         elif op == "update":
-            v.update(list(step["xs"]))
+            form = step.get("form", "")
+            xs = list(step["xs"])
+            v.update((x for x in xs) if form == "gen" else tuple(xs) if form == "tuple" else iter(xs) if form == "iter" else xs)
         elif op == "setitem":
             v[step["n"]] = x
         elif op == "delitem":
@@ -369,28 +372,47 @@ def _view_op(kind, v, step):
         return rb
     d = v.parameters if (kind == "wa" and op.startswith("p_")) else v
     dop = op[2:] if (kind == "wa" and op.startswith("p_")) else op
-    if kind in ("cc", "csp", "mtp") or (kind == "wa" and op.startswith("p_")):
+    DICT_OPS = ("setitem", "delitem", "pop", "pop1", "clear", "update", "ior", "setdefault", "popitem")
+    if (kind in ("cc", "csp", "mtp") and dop in DICT_OPS) or (kind == "wa" and op.startswith("p_")):
+        form = step.get("form", "")
+        tup = [tuple(p) for p in step.get("ps", ())]
+        kw = dict(tuple(p) for p in step.get("kw", ()))
         if dop == "setitem":
             d[x] = y
-            return rb
-        if dop == "delitem":
+        elif dop == "delitem":
             del d[x]
-            return rb
-        if dop == "pop":
-            d.pop(x, None)
-            return rb
-        if dop == "clear":
+        elif dop == "pop":                       # with a default: never raises
+            d.pop(x, "dflt") if form == "default" else d.pop(x, None)
+        elif dop == "pop1":                      # without a default: KeyError when missing
+            d.pop(x)
+        elif dop == "clear":
             d.clear()
-            return rb
-        if dop == "update":
-            d.update([tuple(p) for p in step["ps"]])
-            return rb
-        if dop == "setdefault":
-            d.setdefault(x, y)
-            return rb
-        if dop == "popitem":
+        elif dop == "update":                    # every call form of dict.update
+            if form == "mapping":
+                d.update(dict(tup))
+            elif form == "kwargs":
+                d.update(**kw)
+            elif form == "mapping+kwargs":
+                d.update(dict(tup), **kw)
+            elif form == "pairs+kwargs":
+                d.update(tup, **kw)
+            elif form == "none":
+                d.update()
+            elif form == "gen":
+                d.update((k, v) for k, v in tup)
+            else:
+                d.update(tup)
+        elif dop == "ior":                       # |= mapping / |= iterable of pairs (in place, no re-assignment)
+            import operator
+
+            operator.ior(d, tup if form == "pairs" else dict(tup))
+        elif dop == "setdefault":
+            d.setdefault(x) if form == "nodefault" else d.setdefault(x, y)
+        elif dop == "popitem":
             d.popitem()
-            return rb
+        else:
+            raise HarnessError(f"unknown dict op {dop}")
+        return rb
     if kind == "cc":
         if op == "cc_set":
             try:
@@ -618,9 +640,47 @@ def alias_ops(kind, small=False):
     return out
 
 
+def call_form_ops(kind):
+    """every call form Python allows for the mutators of the dict-like / set-like views (same abstract operation,
+    different argument shape): update(mapping | pairs | generator | **kwargs | mapping, **kwargs | nothing), |= mapping /
+    pairs, setdefault(k) / (k, v), pop(k) / pop(k, default), HeaderSet.update(list | tuple | generator | iterator)"""
+    if kind == "set":
+        out = [{"op": "update", "xs": xs, "form": f} for f in ("gen", "tuple", "iter")
+               for xs in (["Accept", "cookie"], ["X-A", "x-a", "Cookie"], [])]
+        out += [{"op": "setitem", "n": -2, "x": "Origin"}, {"op": "delitem", "n": -2}, {"op": "setitem", "n": -1, "x": "X-Last"}]
+        return out
+    uni = {"cc": ("max-age", "5", "public", None, "immutable", None, "no-cache"),
+           "csp": ("img-src", "*", "sandbox", "allow-scripts", "default-src", "'none'", "default-src"),
+           "mtp": ("q", "1", "charset", "latin-1", "format", "flowed", "charset"),
+           "wa": ("nonce", "n2", "realm", "k", "stale", "TRUE", "realm")}.get(kind)
+    if uni is None:
+        return []
+    k1, v1, k2, v2, k3, v3, kp = uni
+    pre = "p_" if kind == "wa" else ""
+    # **kwargs keys must be identifiers: only such keys are used there
+    ident = [(k, v) for k, v in ((k2, v2), (k3, v3)) if k.isidentifier()]
+    out = [{"op": pre + "update", "ps": [[k1, v1]], "form": "mapping"},
+           {"op": pre + "update", "ps": [[k1, v1], [k2, v2]], "form": "gen"},
+           {"op": pre + "update", "ps": [], "form": "none"},
+           {"op": pre + "update", "ps": [], "form": "mapping"},
+           {"op": pre + "ior", "ps": [[k1, v1], [k3, v3]], "form": "mapping"},
+           {"op": pre + "ior", "ps": [[k2, v2]], "form": "pairs"},
+           {"op": pre + "ior", "ps": [], "form": "pairs"}]
+    if ident:
+        out += [{"op": pre + "update", "kw": [list(p) for p in ident], "form": "kwargs"},
+                {"op": pre + "update", "kw": [list(ident[0])], "form": "kwargs"},
+                {"op": pre + "update", "ps": [[k1, v1]], "kw": [list(ident[-1])], "form": "mapping+kwargs"},
+                {"op": pre + "update", "ps": [[k1, v1]], "kw": [list(ident[0])], "form": "pairs+kwargs"}]
+    for k in (kp, "x-absent"):
+        out += [{"op": pre + "pop1", "x": k}, {"op": pre + "pop", "x": k, "form": "default"},
+                {"op": pre + "setdefault", "x": k, "form": "nodefault"}, {"op": pre + "setdefault", "x": k, "y": "dv"},
+                {"op": pre + "delitem", "x": k}]
+    return out
+
+
 def ops_for(kind, rng=None, small=False):
     """The op alphabet of a view kind over a small argument universe (without "vw")."""
-    out = alias_ops(kind, small)
+    out = alias_ops(kind, small) + call_form_ops(kind)
     if kind == "set":
         items = SET_ITEMS[:4] if small else SET_ITEMS
         for x in items:
@@ -786,4 +846,4 @@ VIEW_PROPS = ["vary", "allow", "content_language", "cache_control", "content_sec
 
 def step_key(step):
     """violation key component for a step"""
-    return step["op"] + (":" + step["tag"] if step.get("tag") else "")
+    return step["op"] + (":" + step["tag"] if step.get("tag") else "") + ("/" + step["form"] if step.get("form") else "")
